@@ -382,6 +382,8 @@ class Interp:
                 obj.set(self.mangle(t.attr, env), v)
             elif hasattr(obj, "setattr"):
                 obj.setattr(t.attr, v)
+            elif isinstance(obj, (SArr, SArr2)) and t.attr == "encoding":
+                obj.enc = v                      # re-tagging an EncodedArray wrapper (transparent)
             else:
                 raise Unsupported("attribute assignment on %r" % (obj,))
         elif isinstance(t, ast.Subscript):
